@@ -15,6 +15,7 @@ Record fanobs := mkFanObs {
   f_orig : dev;          (* device before the daemon started *)
   f_began : bool;        (* the controller loop of this fan was started (log marker / first PWM write) *)
   f_final : dev;         (* device after the process ended *)
+  f_touched : bool;      (* the log shows that fan2go wrote to this fan (initialisation sequence, sweep, control cycle) *)
 }.
 
 Record case := mkCase {
@@ -22,7 +23,8 @@ Record case := mkCase {
   c_nmons : Z;
   c_scn : Z;             (* 1 ticking, 2 start-up wait, 3 first second, 4 second signal while restoring,
                             5 another controller fails its initialisation, 6 control error (no RPM monitor),
-                            7 control error (RPM monitor) then signal *)
+                            7 control error (RPM monitor) then signal,
+                            8 signal while a not yet analysed fan is being measured (real-time analysis, > 10 s) *)
   c_nsig : Z;            (* signals sent *)
   o_exit : Z;            (* exit status; 2 = Go panic; 3 = had to be killed *)
   o_panic : bool;        (* "panic:" or "fatal error:" on stderr *)
@@ -48,7 +50,7 @@ Definition sched_of (c : case) : list event :=
   let n := c_nsig c in
   match c_scn c with
   | 1 => each (idx c) to_tick ++ [Signal; SigRecv] ++ signals (n - 1) ++ wind_down c
-  | 2 => each (idx c) (fun i => [Advance i a_sweep_ok]) ++ [Signal; SigRecv] ++ signals (n - 1)
+  | 2 | 8 => each (idx c) (fun i => [Advance i a_sweep_ok]) ++ [Signal; SigRecv] ++ signals (n - 1)
          ++ each (idx c) (fun i => repeat (Advance i a_sweep_ok) 4) ++ wind_down c
   | 3 => each (idx c) (fun i => repeat (Advance i a_sweep_ok) 4) ++ [Signal; SigRecv] ++ signals (n - 1)
          ++ each (idx c) (fun i => [Advance i a_ok]) ++ wind_down c
@@ -94,7 +96,7 @@ Definition mismatch (c : case) : bool := negb (agrees repaired c).
    every fan whose regulation began is handed back or at 255 (fault-free drivers:
    the last-resort escape does not apply) *)
 Definition fan_holdsb (f : fanobs) : bool :=
-  negb (f_began f) || safeb (fsup f) (f_orig f) (f_final f).
+  negb (f_began f || f_touched f) || safeb (fsup f) (f_orig f) (f_final f).
 
 Definition holdsb (c : case) : bool :=
   negb (o_panic c) && ((o_exit c =? 0) || (o_exit c =? 1)) && forallb fan_holdsb (c_fans c).
@@ -102,14 +104,16 @@ Definition holdsb (c : case) : bool :=
 Lemma holdsb_spec c :
   holdsb c = true <->
   o_panic c = false /\ (o_exit c = 0 \/ o_exit c = 1) /\
-  (forall f, In f (c_fans c) -> f_began f = true -> safe (fsup f) (f_orig f) (f_final f)).
+  (forall f, In f (c_fans c) -> f_began f = true \/ f_touched f = true -> safe (fsup f) (f_orig f) (f_final f)).
 Proof.
   unfold holdsb. rewrite !andb_true_iff, negb_true_iff, orb_true_iff, !Z.eqb_eq, forallb_forall.
   split.
   - intros [[P E] F]. repeat split; auto. intros f Hf B. specialize (F f Hf).
-    unfold fan_holdsb in F. rewrite B in F. cbn in F. now apply safeb_spec.
+    unfold fan_holdsb in F. apply safeb_spec.
+    destruct B as [B|B]; rewrite B in F; rewrite ?orb_true_r in F; exact F.
   - intros [P [E F]]. repeat split; auto. intros f Hf. unfold fan_holdsb.
-    destruct (f_began f) eqn:B; [|reflexivity]. cbn. apply safeb_spec. auto.
+    destruct (f_began f || f_touched f) eqn:B; [|reflexivity]. cbn. apply safeb_spec. apply (F f Hf).
+    apply orb_true_iff in B. exact B.
 Qed.
 
 (* no recorded finding at process level: D2/D4 are repaired; diagnose for the report only *)
